@@ -9,6 +9,17 @@ from ..engine import Prop, Verdict
 from .c14 import shipped_config
 
 
+def free_overloads(meths, name):
+    """True when the declarations of `name` are plain required positionals with pairwise different counts (>= 2 declarations)."""
+    ds = [m for m in meths if m["name"] == name]
+    if len(ds) < 2:
+        return False
+    if any(a["key"] or a["rest"] or a["default"] for d in ds for a in d["args"]):
+        return False
+    counts = [len(d["args"]) for d in ds]
+    return len(set(counts)) == len(counts)
+
+
 def split_render(c, plan):
     """Render an abstract config with class declarations split over files.
 
@@ -44,7 +55,7 @@ class Check(Prop):
             "non-empty; (b) some class the program calls is split or the order of the files of the called classes changes; distinct by SHA-1.")
     ASSUMPTIONS = (
         "the relative order of the overloads of one method is kept inside a part and across parts only when the property allows: "
-        "overloads of the same method are always assigned to the same part (their order is observable by design)",
+        "overloads of the same method are assigned to the same part (their order is observable by design) unless they are plain required positionals of pairwise different counts",
         "crashing/hanging runs are discarded here and counted",
     )
     BUDGET = {"quick": 1200, "thorough": 20000}
@@ -54,6 +65,28 @@ class Check(Prop):
         Prop.__init__(self, *a)
         self.shipped = shipped_config(self.repo)
         self.progs = [p for p in corpus.plain(self.repo) if len(p.text) < 3000]
+
+    def explicit(self):
+        """Seed-independent: declarations of one method that differ in their count, spread over two or three files of one class in
+        every order, called with each accepted count."""
+        import itertools
+        for counts in ((1, 2), (0, 2), (2, 1, 3)):
+            ims = [{"name": "m0", "args": [{"types": ["Int"], "key": None, "default": False, "rest": False} for _ in range(k)],
+                    "ret": [["Int"], ["String"], ["Float"]][i], "block": []} for i, k in enumerate(counts)]
+            ims.append({"name": "zz", "args": [], "ret": ["Symbol"], "block": []})
+            cfg = {"classes": [{"frame": "Builtin", "class": "Alpha", "extends": [], "imethods": ims,
+                                "cmethods": [{"name": "new", "args": [], "ret": ["Alpha"], "block": []}]}]}
+            lines, probes = [], []
+            for k in counts:
+                i = len(probes)
+                lines += ["v%d = Alpha.new" % i, "r%d = v%d.m0(%s)" % (i, i, ", ".join(["1"] * k)), "dbtp r%d" % i]
+                probes.append({"row": len(lines) - 1, "R": ["Alpha"], "m": "m0", "pos": [["Integer"]] * k, "kws": {}, "static": False,
+                               "var": "r%d" % i, "dbtp_row": len(lines)})
+            n = len(counts)
+            for assign in itertools.permutations(range(n)):
+                for order in ([0, 1, 2, 3, 4, 5, 6, 7], [7, 6, 5, 4, 3, 2, 1, 0]):
+                    plan = {"classes": [{"parts": n, "assign_i": list(assign) + [0], "assign_c": [0], "ext_part": 0}], "order": order}
+                    yield {"kind": "split", "cfg": cfg, "lines": lines, "probes": probes, "plan": plan}
 
     def strategy(self):
         names = sorted(self.shipped)
@@ -80,6 +113,11 @@ class Check(Prop):
                 by_name = {}
                 ai = []
                 for m in cls["imethods"]:
+                    if free_overloads(cls["imethods"], m["name"]) and draw(st.booleans()):
+                        # declarations that no call can confuse (plain required positionals, pairwise different counts) may sit in
+                        # different files: which one answers does not depend on the order they are loaded in
+                        ai.append(draw(st.integers(0, 2)))
+                        continue
                     if m["name"] not in by_name:
                         by_name[m["name"]] = draw(st.integers(0, 2))
                     ai.append(by_name[m["name"]])
@@ -123,6 +161,24 @@ class Check(Prop):
         except meta.Discard as d:
             return meta.discard_verdict(d, labels, key)
         nontrivial = bool(a) and (case["kind"] == "shipped" or len(fb) != len(fa) or list(fa.values()) != list(fb.values()))
+        if case["kind"] == "split":
+            # declarations of one method spread over several files: a call every declaration rejects is reported in terms of
+            # whichever declaration was tried last, which is load order by design. Only accepted calls are compared for them.
+            spread = set()
+            for cls, pl in zip(case["cfg"]["classes"], case["plan"]["classes"]):
+                parts = {}
+                for m, a_ in zip(cls["imethods"], pl["assign_i"]):
+                    parts.setdefault(m["name"], set()).add(a_ % pl["parts"])
+                spread |= {n for n, ps in parts.items() if len(ps) > 1}
+            if spread:
+                labels.append("overloads-spread")
+                vs, _ = callprog.verdicts(case)
+                skip = set()
+                for p_, v_, why, app in vs:
+                    if p_["m"] in spread and v_ != "MUST_OK":
+                        skip |= {p_["row"], p_["dbtp_row"]}
+                a = [x for x in a if x[1] not in skip]
+                b = [x for x in b if x[1] not in skip]
         if sorted(a) == sorted(b):
             return Verdict(None, labels, nontrivial, key)
         d = meta.diff(a, b)
